@@ -546,9 +546,9 @@ func (w *World) expectedPhysical() int64 {
 
 func waitLimit() time.Duration {
 	if processFailed {
-		return 300 * time.Millisecond
+		return 2 * time.Second // shrinking after a real failure: a stuck state stays stuck
 	}
-	return 20 * time.Second
+	return 30 * time.Second
 }
 
 // settle waits until the collection workers have caught up with the model, so that
@@ -558,6 +558,8 @@ func (w *World) settle() bool {
 	want := w.expectedPhysical()
 	deadline := time.Now().Add(waitLimit())
 	first := true
+	start := time.Now()
+	nextGC := 2 * time.Millisecond
 	for {
 		d := w.Stats()
 		if d.NodeCount == want && d.SoftDeletes == 0 {
@@ -567,9 +569,18 @@ func (w *World) settle() bool {
 			return first
 		}
 		first = false
+		// Two Close calls racing (e.g. StoreToDisk's own release against a Close made from the item
+		// callback) may leave a retired snapshot behind the pass that was running: the property promises
+		// collection by "a collection pass at quiescence (GC() forces one)", so force one while waiting.
+		if waited := time.Since(start); waited > nextGC {
+			w.db.GC()
+			nextGC = waited + 10*time.Millisecond
+		}
 		if time.Now().After(deadline) {
 			if !w.Strict {
-				processFailed = true // shorten later waits
+				if w.st != nil {
+					w.st.Exclude("inconclusive:collection-did-not-settle")
+				}
 				if w.inCallback {
 					panic(&deferredFailure{sig: "__skip__", msg: "collection did not settle"})
 				}
